@@ -30,13 +30,16 @@ TAU, TD, TR = 2.0, 4.0, 1.0
 
 
 def syn_ctor(kind, dt, mode="previous", tol=0.0):
+    ip = {}
+    if kind.endswith("+ip"):  # the synapse's in-place option: same history, written in place
+        kind, ip = kind[:-3], {"inplace": True}
     if kind == "delta":
-        return DeltaCurrent.partialconstructor(spike_charge=dt, interp_mode=mode, interp_tol=tol)
+        return DeltaCurrent.partialconstructor(spike_charge=dt, interp_mode=mode, interp_tol=tol, **ip)
     if kind == "deltaplus":
-        return DeltaPlusCurrent.partialconstructor(spike_charge=dt, interp_mode=mode, interp_tol=tol)
+        return DeltaPlusCurrent.partialconstructor(spike_charge=dt, interp_mode=mode, interp_tol=tol, **ip)
     if kind == "exp":
-        return SingleExponentialCurrent.partialconstructor(spike_charge=2.0, time_constant=TAU, spike_interp_mode=mode, interp_tol=tol)
-    return DoubleExponentialCurrent.partialconstructor(spike_charge=2.0, tc_decay=TD, tc_rise=TR, spike_interp_mode=mode, interp_tol=tol)
+        return SingleExponentialCurrent.partialconstructor(spike_charge=2.0, time_constant=TAU, spike_interp_mode=mode, interp_tol=tol, **ip)
+    return DoubleExponentialCurrent.partialconstructor(spike_charge=2.0, tc_decay=TD, tc_rise=TR, spike_interp_mode=mode, interp_tol=tol, **ip)
 
 
 CONV_GEOM = {"conv": (1, 3, 1, 2), "conv22": (2, 3, 2, 2)}  # H, W, kH, kW (one channel)
@@ -116,6 +119,7 @@ def shard(conn, skind, dt, maxk, fractional, T, F=2, only_assign=None, only_clea
     an updater applies learned delays) by the assignment rotated one place through the alphabet; from then on the output is the
     shift by the *new* delays of the same undelayed history."""
     tally = Tally()
+    skind_b, skind = skind, skind[:-3] if skind.endswith("+ip") else skind  # build with the option, compare as the plain kind
     # the maximum delay is at least the largest per-synapse delay as it is actually represented (the float32 product maxk*dt may
     # exceed the double product by one ulp, and with tolerance 0 a selector beyond the maximum is out of bounds)
     maxdelay = max(maxk * dt, float(torch.tensor(float(maxk)) * dt))
@@ -136,7 +140,7 @@ def shard(conn, skind, dt, maxk, fractional, T, F=2, only_assign=None, only_clea
     for t in range(T):
         x = torch.tensor([h[t] for h in hs], dtype=torch.bool)
         xs.append(x.reshape(B, 1, CONV_GEOM[conn][0], CONV_GEOM[conn][1]) if isconv else x)
-    cfg = {"conn": conn, "synapse": skind, "dt": dt, "max_delay": maxdelay, "maxk": maxk, "fractional": fractional, "T": T, "F": F,
+    cfg = {"conn": conn, "synapse": skind_b, "dt": dt, "max_delay": maxdelay, "maxk": maxk, "fractional": fractional, "T": T, "F": F,
            "batch=histories": B, "interp_tol": tol, "delay_alphabet": alphabet_override, "interp_mode": mode, "constructed_with_dt": dt_from, "float64": float64, "constructed_with_max_delay": maxdelay_from}
     for assign in itertools.product(alphabet, repeat=len(pos)):
         if only_assign is not None and list(assign) != list(only_assign):
@@ -153,9 +157,9 @@ def shard(conn, skind, dt, maxk, fractional, T, F=2, only_assign=None, only_clea
             tally.add("evaluations")
             try:
                 if maxdelay_from is None:
-                    cd = build(conn, skind, dt if dt_from is None else dt_from, maxdelay, B, W, D, mode, tol)
+                    cd = build(conn, skind_b, dt if dt_from is None else dt_from, maxdelay, B, W, D, mode, tol)
                 else:
-                    cd = build(conn, skind, dt, maxdelay_from, B, W, torch.zeros_like(W), mode, tol)
+                    cd = build(conn, skind_b, dt, maxdelay_from, B, W, torch.zeros_like(W), mode, tol)
                     cd.synapse.delay = maxdelay
                     cd.delay = D.clone()
                 cu = build(conn, skind, dt if dt_from is None else dt_from, None, B, W, D, mode, tol)
@@ -337,6 +341,10 @@ def run(rep):
                         jobs.append((shard, (conn, skind, dt, 2 if not quick else 1, True, T, 1)))
                     elif not quick:
                         jobs.append((shard, (conn, skind, dt, 1, True, T, 2)))
+    # the synapses' in-place option under delays (the stored history must not be touched by the step that extends it)
+    for conn in ("direct", "dense"):
+        for skind in ("delta+ip", "deltaplus+ip", "exp+ip", "dexp+ip"):
+            jobs.append((shard, (conn, skind, 1.0, 2, conn == "direct", T, 2)))
     # delays of three steps at the non-representable step time 1.3 (float32(3*1.3) != 3*float32(1.3)): defined only with a
     # tolerance that dominates rounding, which the synapse then has to honour for currents AND spikes
     for skind in ("delta", "exp"):
